@@ -8,8 +8,8 @@ open Lean SpyneModel SpyneModel.Flat Driver
 namespace C03
 def F := SpyneModel.Generated.facts03
 
-instance : Inhabited Ty := ⟨.prim .int⟩
-instance : Inhabited Occ := ⟨⟨false, 0, none⟩⟩
+instance : Inhabited Flat.Ty := ⟨.prim .boolean⟩
+instance : Inhabited Flat.Occ := ⟨⟨false, 0, none, true⟩⟩
 instance : Inhabited Node := ⟨.none⟩
 
 def jText (j : Json) : Text :=
@@ -27,17 +27,65 @@ def fld (j : Json) (k : String) : Json := match j.getObjVal? k with | .ok v => v
 
 def jBool (j : Json) : Bool := match j with | .bool b => b | _ => false
 
-partial def jTy (j : Json) : Ty :=
+def jBig (j : Json) : Int :=
+  match j with
+  | .str s => s.toInt?.getD 0
+  | .num n => n.mantissa
+  | _ => 0
+
+def jOptBig (j : Json) (k : String) : Option Int :=
+  match j.getObjVal? k with
+  | .ok .null => none
+  | .ok v => some (jBig v)
+  | .error _ => none
+
+def jOptNat (j : Json) (k : String) : Option Nat :=
+  match j.getObjVal? k with
+  | .ok (.num n) => some n.mantissa.toNat
+  | _ => none
+
+def kindOf (s : String) : IntKind :=
+  match s with
+  | "i8" => .i8 | "i16" => .i16 | "i32" => .i32 | "i64" => .i64
+  | "u8" => .u8 | "u16" => .u16 | "u32" => .u32 | "u64" => .u64
+  | _ => .unbounded
+
+def jPattern (j : Json) : Option Pattern :=
+  match j with
+  | .obj _ =>
+    some { ranges := (getArr j "ranges").toList.map (fun r =>
+              match r with
+              | .arr a => (Char.ofNat ((a[0]?.bind (·.getNat?.toOption)).getD 0), Char.ofNat ((a[1]?.bind (·.getNat?.toOption)).getD 0))
+              | _ => ('a', 'a')),
+           min := getNat j "min", max := jOptNat j "max" }
+  | _ => none
+
+/-- a primitive type in the shared JSON encoding of `PrimTy` (harness/hierblock.py) -/
+def jPrim (j : Json) : Option PK :=
   match getStr j "k" with
-  | "int" => .prim .int
-  | "str" => .prim .str
-  | "bool" => .prim .bool
-  | "dt" => .prim .str      -- DateTime out-header member: the kind is irrelevant to the encoder
-  | _ => .obj (jNat (fld j "cid")) ((jArr (fld j "fields")).map jFld)
+  | "int" =>
+    let r := fld j "r"
+    some (.integer (kindOf (getStr j "kind")) { ge := jOptBig r "ge", gt := jOptBig r "gt", le := jOptBig r "le", lt := jOptBig r "lt" })
+  | "bool" => some .boolean
+  | "str" => some (.unicode (getNat j "minLen") (jOptNat j "maxLen") (jPattern (fld j "pattern"))
+                ((getArr j "values").toList.map jText))
+  | "date" => some .date
+  | "time" => some .time
+  | "dt" => some .dateTime
+  | "dur" => some .duration
+  | "bytes" => some (.bytes (match getStr j "enc" with | "hex" => .hex | "urlsafe" => .urlsafe | _ => .base64))
+  | "enum" => some (.enum ((getArr j "names").toList.map jText))
+  | _ => none
+
+partial def jTy (j : Json) : Flat.Ty :=
+  match jPrim j with
+  | some p => .prim p
+  | none => .obj (jNat (fld j "cid")) ((jArr (fld j "fields")).map jFld)
 where
   jFld (f : Json) : Fld :=
     (jText (fld f "n"),
-     ⟨jBool (fld f "many"), jNat (fld f "min"), (match fld f "max" with | .null => none | x => some (jNat x))⟩,
+     ⟨jBool (fld f "many"), jNat (fld f "min"), (match fld f "max" with | .null => none | x => some (jNat x)),
+      (match fld f "nillable" with | .bool b => b | _ => true)⟩,
      jTy (fld f "t"))
 
 def jFields (j : Json) : List Fld := (jArr j).map jTy.jFld
@@ -49,13 +97,21 @@ def jDoc (j : Json) : Doc := (jArr j).map fun kv =>
   | .arr a => (jText (a[0]?.getD .null), (jArr (a[1]?.getD .null)).map jOptText)
   | _ => ([], [])
 
+def natsJson (l : List Nat) : Json := Json.arr (l.map (fun (n : Nat) => (n : Json))).toArray
+
 def leafJson : Leaf → Json
   | .none => .null
   | .int i => Json.mkObj [("i", Json.str (toString i))]
+  | .bool b => Json.mkObj [("b", .bool b)]
   | .str s => Json.mkObj [("s", textJson s)]
-  | .bool b => Json.mkObj [("b", Json.bool b)]
+  | .date d => Json.mkObj [("date", Json.arr #[d.y, d.m, d.d])]
+  | .time t => Json.mkObj [("time", Json.arr #[t.h, t.mi, t.s, t.us])]
   | .dt x => Json.mkObj [("dt", Json.arr #[x.date.y, x.date.m, x.date.d, x.time.h, x.time.mi, x.time.s, x.time.us,
       match x.tz with | none => Json.null | some m => Json.num (JsonNumber.fromInt m)])]
+  | .dur us => Json.mkObj [("dur", Json.str (toString us))]
+  | .bytes bs => Json.mkObj [("x", natsJson bs)]
+  | .enum n => Json.mkObj [("e", textJson n)]
+  | _ => Json.str "?"
 
 partial def nodeJson : Node → Json
   | .none => .null
@@ -69,6 +125,7 @@ def jDt (a : Array Json) : DateTime :=
   ⟨⟨n 0, n 1, n 2⟩, ⟨n 3, n 4, n 5, n 6⟩, match a[7]? with | some (Json.num k) => some k.mantissa | _ => none⟩
 
 def jLeaf (j : Json) : Leaf :=
+  let n (a : Array Json) (i : Nat) : Nat := match a[i]? with | some j => (j.getNat?.toOption.getD 0) | none => 0
   match j with
   | .null => .none
   | _ =>
@@ -76,14 +133,32 @@ def jLeaf (j : Json) : Leaf :=
     | .ok (.arr a) => .dt (jDt a)
     | _ =>
     match j.getObjVal? "i" with
-    | .ok (.str s) => .int (s.toInt?.getD 0)
+    | .ok v => .int (jBig v)
     | _ =>
-      match j.getObjVal? "s" with
-      | .ok t => .str (jText t)
-      | _ => match j.getObjVal? "b" with | .ok (.bool b) => .bool b | _ => .none
+    match j.getObjVal? "s" with
+    | .ok t => .str (jText t)
+    | _ =>
+    match j.getObjVal? "b" with
+    | .ok (.bool b) => .bool b
+    | _ =>
+    match j.getObjVal? "date" with
+    | .ok (.arr a) => .date ⟨n a 0, n a 1, n a 2⟩
+    | _ =>
+    match j.getObjVal? "time" with
+    | .ok (.arr a) => .time ⟨n a 0, n a 1, n a 2, n a 3⟩
+    | _ =>
+    match j.getObjVal? "dur" with
+    | .ok v => .dur (jBig v)
+    | _ =>
+    match j.getObjVal? "x" with
+    | .ok (.arr a) => .bytes (a.toList.map (fun c => c.getNat?.toOption.getD 0))
+    | _ =>
+    match j.getObjVal? "e" with
+    | .ok t => .enum (jText t)
+    | _ => .none
 
 /-- a native object in the encoding of `nodeJson`, read back under the guidance of the type -/
-partial def jNode (many : Bool) (t : Ty) (j : Json) : Node :=
+partial def jNode (many : Bool) (t : Flat.Ty) (j : Json) : Node :=
   match j with
   | .null => .none
   | _ =>
@@ -109,20 +184,18 @@ def docJson (d : Doc) : Json :=
   Json.arr (d.map (fun kv => Json.arr #[textJson kv.1,
     Json.arr (kv.2.map (fun v => match v with | none => Json.null | some t => textJson t)).toArray])).toArray
 
-def natsJson (l : List Nat) : Json := Json.arr (l.map (fun (n : Nat) => (n : Json))).toArray
-
 def encValJson : EncVal → Json
-  | .one v => Json.mkObj [("one", leafJson v)]
-  | .many vs => Json.mkObj [("many", Json.arr (vs.map leafJson).toArray)]
+  | .one _ v => Json.mkObj [("one", leafJson v)]
+  | .many _ vs => Json.mkObj [("many", Json.arr (vs.map leafJson).toArray)]
   | .empty => Json.str "empty"
 
-def jRet (j : Json) : RetVal :=
+def jRet (k : Json) (j : Json) : RetVal :=
   match j with
   | .null => .none
   | _ =>
     match j.getObjVal? "bytes" with
     | .ok c => .bytes ((jArr c).map (fun ch => (jArr ch).map jNat))
-    | _ => .leaf (jLeaf j)
+    | _ => .leaf ((jPrim k).getD .boolean) (jLeaf j)
 
 def step (j : Json) : Json :=
   match getStr j "op" with
@@ -150,7 +223,7 @@ def step (j : Json) : Json :=
     Json.arr ((encode (jText (fld j "delim")) fs inst).map (fun kv => Json.arr #[textJson kv.1, encValJson kv.2])).toArray
   | "http.return" =>
     let hf := jFields (fld j "hdrFields")
-    let r := response (jText (fld j "mime")) hf (jNode false (.obj 0 hf) (fld j "hdr")) (jRet (fld j "ret"))
+    let r := response F (jText (fld j "mime")) hf (jNode false (.obj 0 hf) (fld j "hdr")) (jRet (fld j "retTy") (fld j "ret"))
     Json.mkObj [("headers", Json.arr (r.1.map (fun kv => Json.arr #[textJson kv.1, textJson kv.2])).toArray),
                 ("body", natsJson r.2)]
   | op => Json.mkObj [("driver_error", Json.str s!"unknown op {op}")]
